@@ -88,7 +88,10 @@ NAMED = {":": ["&colon;"], "\t": ["&Tab;"], "\n": ["&NewLine;"], "(": ["&lpar;"]
 BAD_SCHEMES = ["javascript", "vbscript", "file", "data"]
 RESTS = ["alert(1)", "alert&lpar;1&rpar;", "//host/p", "///etc/passwd", "image/png;base64,iVBOR", "IMAGE/GIF;x", "image/svg+xml,<svg/onload=1>",
          "image/jpeg,zz", "image/webp;", "image/pngx;1", "text/html,<b>", "text/html;base64,PHN2Zz4=", "x%zz", "%", "x\"y", "x'y", "a b", "x[1]", "",
-         "%0aalert(1)", "\\u0061"]
+         "%0aalert(1)", "\\u0061",
+         # an allow-listed or harmless prefix later in the URL must not redeem a dangerous scheme
+         "alert(1)//data:image/png;base64,x", "x?data:image/gif;", "1;data:image/jpeg;", "#data:image/webp;x", "//http://a.b/", "x&#10;data:image/png;",
+         "text/html,data:image/png;", "image/png", "image/gif", "image/png:", "IMAGE/PNG;", "image/png;", "image/jpeg;x"]
 GOOD = ["http://a.b/c?d=e&f#g", "https://ü.com/é", "HTTP://EXAMPLE.COM/%41%zz", "mailto:a@b.c", "/rel/path", "#frag", "//x.y/z", "ftp://f.g/h(i)",
         "data:image/png;base64,iVBOR", "DATA:IMAGE/GIF;x", "data:image/webp;x", "tel:+123", "x-y.z:opaque", "http://[::1]/", "http://a.b/\\*c", "?q=ü&r=%",
         "http://ex.com/" + "\U0001f600", "skype:name", "http://a.b/c&amp;d", "http://%ZZ.com/"]
